@@ -20,8 +20,9 @@
 
    Variant "bound" is the algorithm of the code; "nofp" drops the fingerprint
    comparison of verify_session; "xffprint" hashes the first entry of
-   X-Forwarded-For instead of the peer address.  TLC must find a violation
-   of SessionBound for both (teeth).  A variant is a generator, never an
+   X-Forwarded-For instead of the peer address; "catprint" hashes address and
+   agent concatenated without a separator (the pinned code).  TLC must find a
+   violation of SessionBound for each (teeth).  A variant is a generator, never an
    oracle.                                                                  *)
 EXTENDS SessionsOps, FiniteSets, TLC
 
@@ -61,6 +62,14 @@ Presented(fp, ck) ==
                                ELSE [kind |-> "trans", base |-> ck[2], fp |-> fp]
     [] OTHER                -> [kind |-> "", base |-> 0, fp |-> fp]
 
+(* What the fingerprint hash distinguishes.  Addresses and agents are texts;
+   "a1d" is the text of "a1" followed by a digit and "du1" that digit followed
+   by the text of "u1": the clients <<a1, du1>> and <<a1d, u1>> differ in address
+   and agent, but a hash of the bare concatenation cannot tell them apart
+   (variant "catprint"; the intended fingerprint keeps the two parts apart). *)
+CatPairs == {<<"a1", "du1">>, <<"a1d", "u1">>}
+K(fp) == IF Variant = "catprint" /\ fp \in CatPairs THEN <<"a1", "du1">> ELSE fp
+
 (* verify_session: the part after '/' must be the sender's fingerprint *)
 Accepted(fp, rec) == rec.kind # "" /\ (Variant = "nofp" \/ rec.fp = fp)
 
@@ -76,8 +85,8 @@ Request(ip, agent, ck, op, xh) ==
   /\ (xh[1] # "none" => nx < MaxExtra)
   /\ (nreq = 0 => ip = FirstIp /\ agent = FirstAgent)     \* symmetry: the first client is fixed
   /\ LET fp   == <<ip, agent>>                           \* the client: peer address + user agent
-         wfp  == <<WhoIp(ip, xh), agent>>                 \* what the server hashes
-         rec  == Presented(fp, ck)                        \* forged suffixes are made from the sender's own address
+         wfp  == K(<<WhoIp(ip, xh), agent>>)              \* what the server hashes
+         rec  == Presented(K(fp), ck)                     \* forged suffixes are made from the sender's own address
          pidx == IF rec.kind = "" THEN 0 ELSE Find(rec)   \* what was presented, as an assigned id
          acc  == Accepted(wfp, rec)
          idx  == IF acc /\ pidx # 0 THEN pidx ELSE Len(ids) + 1
